@@ -810,9 +810,15 @@ static bool compile_builtin_call(CG *cg, ASTNode *node) {
         return true;
     }
     if (strcmp(name, "array_slice") == 0 && argc == 3) {
+        /* array_slice(arr, start, length) (docs/STDLIB.md); OP_ARR_SLICE takes start and end: end = start + length */
         compile_expr(cg, args[0]); /* array */
         compile_expr(cg, args[1]); /* start */
-        compile_expr(cg, args[2]); /* end */
+        uint16_t s_slot = local_add(cg, "__slice_start__", 0);
+        emit_op(cg, OP_STORE_LOCAL, (int)s_slot);
+        emit_op(cg, OP_LOAD_LOCAL, (int)s_slot);
+        compile_expr(cg, args[2]); /* length */
+        emit_op(cg, OP_LOAD_LOCAL, (int)s_slot);
+        emit_op(cg, OP_ADD);
         emit_op(cg, OP_ARR_SLICE);
         return true;
     }
